@@ -191,7 +191,7 @@ def entity_table_check(ctx):
 
 
 def run(ctx):
-    ok = ctx.lean_stage(["entities", "emph_chars"], ["Verif.Props.C03", "Verif.Props.BqCount", "Verif.Props.LinkRecog", "Verif.Props.InlineRecog", "Verif.Props.Emphasis", "Verif.Props.GfmRender", "Verif.Props.ListStarts", "Verif.Props.ListStarts2", "Verif.Props.LeafBlocks2"])
+    ok = ctx.lean_stage(["entities", "emph_chars"], ["Verif.Props.C03", "Verif.Props.BqCount", "Verif.Props.LinkRecog", "Verif.Props.InlineRecog", "Verif.Props.Emphasis", "Verif.Props.GfmRender", "Verif.Props.ListStarts", "Verif.Props.ListStarts2", "Verif.Props.LeafBlocks2", "Verif.Props.LeafBlocks2b"])
     import blocks
     blocks.linkrecog(ctx)      # dest / title / label recognisers = CommonMark via LeanMark (+ the *_differs witnesses), unescape_value, normalize_spec
     blocks.inlinerecog(ctx)    # raw HTML / autolink / entity / escape / code span recognisers = LeanMark outside stated input sets
